@@ -26,6 +26,7 @@ import numpy as np
 from verif import core
 from verif import dist_k as K
 from verif.translators import tint
+from verif.props import c11_gen as G11
 
 import optuna
 from optuna import distributions as OD
@@ -60,6 +61,7 @@ class Ctx:
         self.counts: dict[str, int] = {}
         self.findings: list[Finding] = []
         self.nontrivial = False
+        self.last: Any = None
 
     def count(self, k: str, n: int = 1) -> None:
         self.counts[k] = self.counts.get(k, 0) + n
@@ -68,6 +70,14 @@ class Ctx:
         r = self.drv.ask(obj)
         if "r" not in r:
             raise core.DriverBroken("driver: %s on %s" % (r, json.dumps(obj)[:300]))
+        self.last = r
+        bad = G11.gen_disagreement(r)
+        if bad is not None:  # interpreter of the IR generated from optuna/_transform.py vs the hand model (driver `distgen`)
+            self.count("gen:differs")
+            self.broke("generated-vs-hand", "%s: the interpreter of the generated transform IR differs from the hand model: %s on %s" % (
+                obj.get("op"), json.dumps(bad)[:400], json.dumps({k: v for k, v in obj.items() if k != "env"})[:300]))
+        elif "gen" in r:
+            self.count("gen:side-by-side")
         return r["r"]
 
     def viol(self, kind: str, msg: str, **extra: Any) -> None:
@@ -582,6 +592,14 @@ def eval_space(cx: Ctx, case: dict[str, Any], r: random.Random) -> None:
             break
     if len(mb) != raw.shape[0]:
         cx.broke("bounds", "number of columns: model %d / code %d for %s" % (len(mb), raw.shape[0], dists))
+    why_cols = G11.bookkeeping_agrees(cx.last, tr)   # generated column_to_encoded_columns / encoded_column_to_column vs the object's
+    if why_cols is not None:
+        cx.broke("bookkeeping", "%s for %s" % (why_cols, dists))
+    elif isinstance(cx.last, dict) and "c2e" in cx.last:
+        cx.count("gen:bookkeeping-equal")
+    md = cx.ask({"op": "bounds", "cfg": cfg, "space": mspace, "env": env0})   # the `bounds` property (unit rows under 0-1 scaling)
+    if cfg["t01"] and [[K.pr(a), K.pr(b)] for a, b in md] != [[K.fbin(a), K.fbin(b)] for a, b in tr.bounds.tolist()]:
+        cx.broke("bounds", "declared bounds under 0-1 scaling: model %s / code %s" % (str(md)[:200], tr.bounds.tolist()))
     if any(lo > hi for lo, hi in raw.tolist()):
         cx.viol("bounds", "a lower bound exceeds its upper bound: %s for %s" % (raw.tolist(), dists))
     bnd = tr.bounds
@@ -1076,7 +1094,7 @@ def replay_negative_witness(chk: core.Check) -> None:
 def search(chk: core.Check) -> None:
     """failing-input search: a larger run of the model-free oracles on the real code"""
     r = random.Random(chk.seed * 31 + 7)
-    drv = core.Driver("dist")
+    drv = core.Driver(G11.DRIVER)
     n = 0
     try:
         for case in gen_cases(r, 6):
@@ -1097,12 +1115,14 @@ def search(chk: core.Check) -> None:
 def main(chk: core.Check) -> int:
     chk.rule = RULE
     translate(chk)
+    G11.regenerate(chk)   # T-transform: optuna/_transform.py -> Generated/TransformGen.lean (Props/C11Gen proves it equal to the hand model)
     if not getattr(chk, "no_prove", False):
-        chk.prove()
+        chk.prove(G11.prove_modules("C11"))
+        G11.explain_proof_failure(chk)
     beyond: list[Any] = []
     try:
         core.ensure_driver()
-        drv = core.Driver("dist")
+        drv = core.Driver(G11.DRIVER)
         try:
             scale = 6 if chk.tier == "quick" else 240
             cases = FIXED_CASES + gen_cases(chk.rng, scale)
@@ -1142,7 +1162,7 @@ def replay(chk: core.Check, path: str) -> int:
     w = json.load(open(path))
     case = w["witness"]["case"] if "witness" in w else w["no_longer_checks"][0]["detail"]["case"]
     core.ensure_driver()
-    drv = core.Driver("dist")
+    drv = core.Driver(G11.DRIVER)
     try:
         cx = run_case(drv, case, 0)
     finally:
